@@ -92,6 +92,17 @@ CHECKS["C14"] = (
     "DESIGN.md section 3 / C14",
 )
 
+CHECKS["C09"] = (
+    "Hypothesis trees x synthesised visitor rule sets vs MRO dispatch reference and bottom-up rewrite reference with object-identity marks",
+    "Seeded Hypothesis search over trees and two rule sets per case (concrete and base-class-only rules, strict "
+    "and non-strict, keep/clone/rewrite/replace/remove/raise); a plain visitor and a transformer are synthesised, "
+    "their dispatch logs are compared with an MRO reference, the transformed tree with a reference rewrite "
+    "including which result objects must be the very input objects and which must be new, and the input tree's "
+    "frame snapshot must be unchanged (also when a rule raises). Bounded exploration.",
+    "Trusts Hypothesis and the reference rewrite; removal rules degrade to keep at non-removable positions.",
+    "DESIGN.md section 3 / C09",
+)
+
 NOT_YET = "check not built yet in this snapshot (see DESIGN.md section 9 build order); nothing is claimed"
 
 
